@@ -502,6 +502,10 @@ func ruleDeleteOnlySuperseded(p *Prog, r *Res, ruleC string) {
 				target := fl.node(pt)
 				res := fl.Reach([]Pt{fl.Entry()}, func(n ast.Node) bool { return n == target }, isReset)
 				r.Check(!res.Found, ruleC, key, p.Pos(c), "the cache deletes its own file, and only after it was reset", "the cache file is deleted without having been reset first: the object goes on serving records from a file that is gone")
+			case unfinishedIndexGuard(p, f, info, c):
+				// a file that could not be loaded and was never finalised (#82): nothing can refer to it — an index is
+				// registered, named in a state file or used as merge input only after Finalize has written its magic
+				r.OkTrivial(ruleC, key, p.Pos(c), "a file that failed to load, removed only under a test of package index that looks at the file's magic")
 			default:
 				// the removed name must derive from something created in this function: w.filename / ib.Filename() / i.Filename()
 				// of a local writer/reader (C13-d provenance), a local variable assigned from MakeFilename/Join in this function,
@@ -512,6 +516,60 @@ func ruleDeleteOnlySuperseded(p *Prog, r *Res, ruleC string) {
 		}
 	}
 	r.Floor(ruleC, 8, nRem)
+}
+
+// unfinishedIndexGuard: os.Remove(x) lies in the body of an if whose condition calls, with the same x, a function of
+// package index that looks at the file magic (its body mentions the constant fileMagic), and x is what index.NewReader
+// was called with in this function.
+func unfinishedIndexGuard(p *Prog, f *Fn, info *types.Info, c *ast.CallExpr) bool {
+	x := identObj(info, c.Args[0])
+	if x == nil {
+		return false
+	}
+	pk := p.By["index"]
+	if pk == nil {
+		return false
+	}
+	magic := pk.Types.Scope().Lookup("fileMagic")
+	if magic == nil {
+		return false
+	}
+	looksAtMagic := func(h *Fn) bool {
+		if h == nil || h.Body() == nil || h.Short != "index" {
+			return false
+		}
+		hit := false
+		ast.Inspect(h.Body(), func(y ast.Node) bool {
+			if id, ok := y.(*ast.Ident); ok && h.Pkg.TypesInfo.Uses[id] == magic {
+				hit = true
+			}
+			return !hit
+		})
+		return hit
+	}
+	guarded := false
+	ast.Inspect(f.Body(), func(y ast.Node) bool {
+		ifs, ok := y.(*ast.IfStmt)
+		if !ok || !within(c, ifs.Body) {
+			return true
+		}
+		for _, cc := range callsIn(ifs.Cond) {
+			if fn := p.Callee(f.Pkg, cc); fn != nil && looksAtMagic(p.FnOfObj(fn)) && len(cc.Args) == 1 && identObj(info, cc.Args[0]) == x {
+				guarded = true
+			}
+		}
+		return true
+	})
+	if !guarded {
+		return false
+	}
+	failedLoad := false
+	for _, cc := range callsInDeep(f.Body()) {
+		if fn := p.Callee(f.Pkg, cc); fn != nil && fn.FullName() == "github.com/spq/pkappa2/internal/index.NewReader" && len(cc.Args) == 1 && identObj(info, cc.Args[0]) == x {
+			failedLoad = true
+		}
+	}
+	return failedLoad
 }
 
 // removedNameIsLocal: the argument of os.Remove derives from an object created in this function.
